@@ -136,8 +136,18 @@ func init() {
 			return nil
 		},
 		"verifChoose": func(fr *frame, args []value) value {
-			n := int(fr.i.concreteInt(args[0], "verifChoose"))
-			return fr.i.choose(n, 's')
+			// a solver variable in [0,n), case-split over its values
+			i := fr.i
+			n := int(i.concreteInt(args[0], "verifChoose"))
+			if n <= 1 {
+				return 0
+			}
+			v := i.nondetValue("__choose", types.Typ[types.Int])
+			if t, ok := v.(*Term); ok {
+				i.assertPC(i.ctx.Cmp(OpULt, t, i.ctx.BV(64, uint64(n))))
+				return int(i.concretize(t, "verifChoose"))
+			}
+			return v
 		},
 		"verifKnown": func(fr *frame, args []value) value {
 			i := fr.i
